@@ -93,8 +93,9 @@ def const_key(c):
 
 
 class Tracer:
-    def __init__(self, body):
+    def __init__(self, body, follow_next=True):
         self.b = body
+        self.follow_next = follow_next
         self.defs = {}
         self.partial = {}
         for bb, i, s in body.statements():
@@ -222,7 +223,7 @@ class Tracer:
             return self._op(args[0], path, visiting)
         if args and (name in UNWRAPPING or decl in UNWRAPPING):
             return self._op(args[0], (("U",),) + path, visiting)
-        if args and (name in ITER_NEXT or decl in ITER_NEXT):
+        if self.follow_next and args and (name in ITER_NEXT or decl in ITER_NEXT):
             if path and path[0] == ("U",):
                 return self._op(args[0], (("item",),) + path[1:], visiting)
         return {Origin("call", bb, path)}
@@ -273,11 +274,11 @@ def short(name):
 _tracers = {}
 
 
-def tracer(body):
-    t = _tracers.get(id(body))
+def tracer(body, follow_next=True):
+    t = _tracers.get((id(body), follow_next))
     if t is None or t.b is not body:
-        t = Tracer(body)
-        _tracers[id(body)] = t
+        t = Tracer(body, follow_next)
+        _tracers[(id(body), follow_next)] = t
     return t
 
 
@@ -623,4 +624,74 @@ def ops_between(body, op, _depth=0, _seen=None):
                 out |= ops_between(body, rv["a"], _depth + 1, _seen)
             elif rv["rv"] == "cast":
                 out |= ops_between(body, rv["op"], _depth + 1, _seen)
+    return out
+
+
+def dep_closure(body, op, max_nodes=4000):
+    """Over-approximate data dependence: every origin the operand's value may be computed from, following
+    statements (all operands), calls (the call itself *and* all its arguments) and closure captures."""
+    tr = tracer(body, follow_next=False)
+    seen = set()
+    work = list(tr.operand(op))
+    while work and len(seen) < max_nodes:
+        o = work.pop()
+        key = (o.kind, o.data)
+        if key in seen:
+            continue
+        seen.add(key)
+        if o.kind == "stmt":
+            rv = body.blocks[o.data[0]].stmts[o.data[1]]["rvalue"]
+            subs = []
+            k = rv["rv"]
+            if k == "bin":
+                subs = [rv["a"], rv["b"]]
+            elif k == "un":
+                subs = [rv["a"]]
+            elif k in ("cast", "repeat", "use"):
+                subs = [rv["op"]]
+            elif k == "agg":
+                subs = rv["ops"]
+            elif k in ("discr", "ref", "rawptr"):
+                subs = [{"k": "copy", "place": rv["place"]}]
+            for s in subs:
+                work.extend(tr.operand(s))
+        elif o.kind == "call":
+            t = body.blocks[o.data].term
+            for a in t.get("args", []):
+                work.extend(tr.operand(a))
+    return seen
+
+
+def origin_keys(body, op):
+    return {(o.kind, o.data) for o in tracer(body).operand(op)}
+
+
+def closure_env_map(F, closure_body):
+    """For a closure body: env field index -> (parent_body, operand captured at creation)."""
+    parent = F.fns.get(closure_body.j.get("closure_parent", "")) or F.fns.get(closure_body.j.get("closure_root", ""))
+    if parent is None:
+        return {}
+    for bb, i, s in parent.statements():
+        if s["s"] == "assign" and s["rvalue"]["rv"] == "agg" and s["rvalue"]["kind"] == "closure" \
+                and s["rvalue"]["closure"] == closure_body.path:
+            return {idx: (parent, op) for idx, op in enumerate(s["rvalue"]["ops"])}
+    return {}
+
+
+def resolve_through_closure(F, body, origins):
+    """Maps origins rooted at a closure's environment (param 1, first path element = captured field) to the
+    origins of the captured operand in the creating function, keeping the rest of the path.
+    Returns set of (body, Origin)."""
+    out = set()
+    env = None
+    for o in origins:
+        if body.kind == "Closure" and o.kind == "param" and o.data == 1 and o.path and o.path[0][0] == "f":
+            env = env if env is not None else closure_env_map(F, body)
+            cap = env.get(o.path[0][1])
+            if cap:
+                pb, op = cap
+                for po in tracer(pb).operand(op, o.path[1:]):
+                    out |= resolve_through_closure(F, pb, {po})
+                continue
+        out.add((body, o))
     return out
